@@ -102,19 +102,21 @@ def run(v, tier, rng):
         ob = b["calls"][0]["out"] if b.get("calls") else "died"
         if oa != ob:
             v.violation("value depends on spacing", {"source_a": cases[i]["srcs"][0], "source_b": cases_t[sub.index(i)]["srcs"][0], "out_a": oa, "out_b": ob})
-    # immediates and displacements: the value that DD e produced (judged by the arithmetic spec above) must be the one
-    # encoded as immediate / displacement, wherever the constant terms stand among the registers
+    # immediates and displacements: the value the arithmetic specification gives to e (Spec/Arith.aeval, evaluated in Coq)
+    # must be the one that is sized and encoded as immediate / displacement, wherever the constant terms stand among the
+    # registers: the statement must assemble exactly like the same statement written with that value as a literal
     fails_set = set(fails)
-    dd_idx = [i for i in ok_idx if progs[i][1] == "dd" and i not in fails_set and len(res[str(i)]["calls"][0]["out"]) == 8]
+    dd_idx = [i for i in ok_idx if progs[i][1] == "dd" and i not in fails_set]
     if tier == "quick":
         dd_idx = dd_idx[:120]
+    svals = lib.coq_eval_values("c06v", lib.header("Check.C06", "spec_value_z"), ["(%s)" % A.g_operand(progs[i][2]) for i in dd_idx], per_file=300) if dd_idx else []
     op_cases, op_meta = [], []
     B32 = ("config", "BITS", ("num", 32))
-    for i in dd_idx:
+    for i, sval in zip(dd_idx, svals):
         e = progs[i][2]
-        raw = lib.hex2list(res[str(i)]["calls"][0]["out"])
-        val = raw[0] | raw[1] << 8 | raw[2] << 16 | raw[3] << 24
-        sval = val - (1 << 32) if val >= 1 << 31 else val
+        if not (-(1 << 63) < sval < (1 << 63)):
+            continue                      # undefined (division by zero) or not writable as a literal
+        val = sval % (1 << 32)
         pe = ("add", ("mul", e, []), []) if e[0] != "add" else e           # e as a parenthesised primary
         par = ("add", ("mul", pe, []), [])
         lit = A.num(sval) if sval >= 0 else ("add", ("mul", ("num", 0), []), [("-", ("mul", ("num", -sval), []))])
@@ -122,7 +124,7 @@ def run(v, tier, rng):
             return A.mem("", A.sum_of(parts))
         dpart = ("+", ("num", sval)) if sval >= 0 else ("-", ("num", -sval))
         variants = [
-            ("imm", [B32, ("mn", "MOV", [A.ident("ECX"), par])], [B32, ("mn", "MOV", [A.ident("ECX"), A.num(sval) if sval >= 0 else A.hexn(val)])]),
+            ("imm", [B32, ("mn", "MOV", [A.ident("ECX"), par])], [B32, ("mn", "MOV", [A.ident("ECX"), A.num(sval) if sval >= 0 else lit])]),
             ("disp reg+e", [B32, ("mn", "MOV", [A.ident("ECX"), mem([("+", ("id", "EBX")), ("+", pe)])])], [B32, ("mn", "MOV", [A.ident("ECX"), mem([("+", ("id", "EBX")), dpart])])]),
             ("disp e+reg", [B32, ("mn", "MOV", [A.ident("ECX"), mem([("+", pe), ("+", ("id", "EBX"))])])], [B32, ("mn", "MOV", [A.ident("ECX"), mem([("+", ("id", "EBX")), dpart])])]),
             ("disp reg+e+reg", [B32, ("mn", "MOV", [mem([("+", ("id", "EBX")), ("+", pe), ("+", ("id", "ESI"))]), A.ident("DL")])],
@@ -148,7 +150,7 @@ def run(v, tier, rng):
             if a["diag"] or a.get("parse_err") or a["out"] != b["out"]:
                 v.violation("constant expression in %s position is not replaced by its value (differs from the same statement written with the literal)" % nm,
                             {"source": op_cases[k]["srcs"][0], "literal_form": op_cases[k]["srcs"][1], "got": a["out"], "diagnosed": bool(a["diag"] or a.get("parse_err")),
-                             "want": b["out"], "value_from": "DD of the same expression = %d (judged by Spec/Arith.v)" % sval})
+                             "want": b["out"], "value_from": "Spec/Arith.aeval of the expression = %d" % sval})
     for i in fails:
         v.violation("expression value differs from arithmetic specification (Spec/Arith.v)",
                     {"source": cases[i]["srcs"][0], "got": res[str(i)]["calls"][0]["out"], "position": progs[i][1]})
